@@ -159,6 +159,55 @@ def case_mem2_scipy(ctx, N, nf=2, nan_at=None):
             ctx.check(ctx.close(tot, 1, rtol=1e-9), "D-SCIPY.unit", info=dict(freq=i))
 
 
+def case_direction_count_float(ctx, method, solution_method):
+    """float64 witness on the real code (concrete run only, every N of the quantifier 8..180):
+    as_frequency_direction_spectrum(N) returns exactly N directions 360 k / N, integrating the result back over
+    direction returns e(f), and time / position / depth are carried over. The direction grid is built in floating
+    point from N alone (no symbolic input), so a miscount for particular N is only visible in float64."""
+    if ctx.mode == "sym":
+        ctx.check(True, "D-NDIR.float", info="executed in the concrete float64 run only")
+        return
+    from ocean_science_utilities.wavespectra.spectrum import create_1d_spectrum
+    f = np.array([0.1, 0.2, 0.3])
+    e = np.array([1.0, 2.0, 0.5])
+    a1, b1 = np.array([0.5, -0.3, 0.1]), np.array([0.2, 0.4, -0.6])
+    a2, b2 = np.array([0.1, 0.0, -0.2]), np.array([-0.1, 0.2, 0.1])
+    s = create_1d_spectrum(f, e, C.T0, 1.0, 2.0, depth=30.0, dims=("frequency",), a1=a1, b1=b1, a2=a2, b2=b2)
+    bad = []
+    for N in range(8, 181):
+        s2 = s.as_frequency_direction_spectrum(N, method=method, solution_method=solution_method)
+        d = np.asarray(s2.direction.values, dtype=float)
+        if len(d) != N or not np.allclose(d, 360.0 * np.arange(N) / N, rtol=0, atol=1e-9):
+            bad.append((N, "directions", len(d)))
+            continue
+        back = np.asarray(s2.e.values, dtype=float)
+        if not np.allclose(back, e, rtol=1e-9, atol=0):
+            bad.append((N, "energy", back.tolist()))
+        if float(s2.depth.values) != 30.0 or float(s2.latitude.values) != 1.0 or float(s2.longitude.values) != 2.0:
+            bad.append((N, "metadata"))
+    ctx.check(not bad, "D-NDIR.float", info=dict(failing=bad[:4], what="N directions 360k/N, e(f) conserved, metadata "
+                                                 "carried over for every N in 8..180"))
+
+
+def case_mem2_overflow_float(ctx, N):
+    """float64 witness on the real code (concrete run only): MEM2 distributions of LARGE multipliers (exponent range
+    far beyond 709, where exp overflows unless the shift is by the minimum) are finite, non-negative and integrate to
+    one. In exact arithmetic any shift cancels in the normalisation, so only float64 sees a wrong one."""
+    if ctx.mode == "sym":
+        ctx.check(True, "D-M2.overflow.float", info="executed in the concrete float64 run only")
+        return
+    import ocean_science_utilities.wavespectra.estimators.mem2 as M2
+    th = 2 * np.pi * np.arange(N) / N
+    tw = np.array([np.cos(th), np.sin(th), np.cos(2 * th), np.sin(2 * th)])
+    inc = np.full(N, 2 * np.pi / N)
+    bad = []
+    for lam in ([600.0, -300.0, 450.0, 0.0], [-900.0, 0.0, 0.0, 0.0], [0.0, 0.0, 0.0, 1200.0], [3.0, -2.0, 1.0, 0.5]):
+        D = np.asarray(M2.mem2_directional_distribution(np.array(lam), inc, tw), dtype=float)
+        if not (np.all(np.isfinite(D)) and np.all(D >= 0) and abs(float(np.sum(D * inc)) - 1.0) < 1e-9):
+            bad.append(lam)
+    ctx.check(not bad, "D-M2.overflow.float", info=dict(failing_multipliers=bad))
+
+
 def case_mem_closed_form(ctx, N):
     """MEM (Lygre & Krogstad): discrete normalisation gives sum D 2pi/N == 1 and D >= 0 wherever no denominator
     vanishes; and the solver is asked whether a denominator CAN vanish on a grid direction for moments in the disc"""
@@ -375,6 +424,11 @@ def cases(tier):
         add("case_mem2_solver_exits", "mem2_exit_general_N4", N=4, exit_kind="general",
             opts=dict(weight=200, case_timeout_s=1500))
     add("case_mem_closed_form", "mem_closed_N4", N=4, opts=dict(weight=50))
+    add("case_mem2_overflow_float", "mem2_overflow_float_N36", N=36, opts=dict(concrete_float=True, label="D-M2.overflow.float"))
+    add("case_direction_count_float", "ndir_float_mem", method="mem", solution_method="scipy",
+        opts=dict(concrete_float=True, label="D-NDIR.float"))
+    add("case_direction_count_float", "ndir_float_mem2_approximate", method="mem2", solution_method="approximate",
+        opts=dict(concrete_float=True, label="D-NDIR.float"))
     add("case_mem2_scipy", "mem2_scipy_N4", N=4, opts=dict(weight=40))
     add("case_mem2_scipy", "mem2_scipy_N4_nan", N=4, nf=2, nan_at=0, opts=dict(weight=40))
     if not q:
